@@ -395,7 +395,7 @@ PROPS['C14'] = dict(
 )
 
 PROPS['C04'] = dict(
-    units=['k_dec', 'k_fac'], level='model_checking', design_ref='13/C04',
+    units=['k_dec', 'k_fac', 'k_dgrp'], level='model_checking', design_ref='13/C04',
     technique='CBMC assertions on MessageBase::decode (clang AST of runtime/message.cpp) over a ghost token sequence and presence set, the loop unwound for the stated bound; Message::decode and '
               'Message::factory (real bodies) composed with that per-part behaviour as a model; refutations replayed through the real Message::factory on the generated FIX42 test classes',
     text='Strict mode, one message part (header / body / trailer), BOUNDED to texts of at most 3 tokens and parts of at most 3 field traits (no groups, no Length/data pairs, no framework-maintained '
@@ -405,7 +405,10 @@ PROPS['C04'] = dict(
          'checksum field; unframed text, an unknown message type, a text not ending in the checksum field or a checksum mismatch are not accepted. '
          'KNOWN FINDING (refuted, replayed on the real code): factory drops the length decode() consumed, so a message is accepted although tokens remain -- everything from the first tag that is not '
          'legal where it stands (undefined tag, misplaced field) up to the checksum is silently discarded (NewOrderSingle with 29999=zzz after the mandatory fields: accepted, 44= and 58= lost). '
-         'NOT decided: repeating groups (decode_group), Length/data pairs, automatic fields repeated after extract_header, numeric text variants, the bound itself.',
+         'Repeating groups (K-dgrp: MessageBase::decode_group with add_field and the FieldTraits helpers from the clang AST; BOUNDED: 2 tokens, definitions of at most 3 members, no nesting): '
+         'every element handed to the group begins with the group\'s first field, every consumed token is a member and becomes exactly one field of exactly one element with its own tag and value, '
+         'the first non-member ends the group unconsumed, an undefined group is refused. '
+         'NOT decided: nested groups, that the number of elements equals the count field (the code never compares them), automatic fields repeated after extract_header, numeric text variants, the bound itself.',
     note='per-part obligations are a bounded stand-in (3 tokens, 3 traits), never counted as proved; the factory composition is modular over an ASSUMED per-part model',
     trusted_base=COMMON_TRUST,
     explanation='Acceptance of a whole message is the conjunction of the three per-part decodes and the final check that nothing is left; the last conjunct is what the code omits.',
